@@ -111,6 +111,7 @@ def menu():
     for v in ('0.004,2.3', '0.003,4,1', '0.01,1,2'):
         add('insul=' + v, lambda a, v=v: a + ['--insulation-load=' + v])
     for name, ms in (('ideal', ['--medium=0,0,0']), ('1real', ['--medium=13,0.005,0']),
+                     ('2lin0', ['--medium=13,0.005,0,0', '--medium=3,0.001,-1', '--boundary=linear']),
                      ('1real-circ', ['--medium=13,0.005,0', '--boundary=circular']), ('1real-lin', ['--medium=13,0.005,0', '--boundary=linear']),
                      ('ideal-circ', ['--medium=0,0,0', '--boundary=circular']),
                      ('3lin', ['--medium=13,0.005,0,5', '--medium=80,4,-1,20', '--medium=3,0.001,0', '--boundary=linear']),
